@@ -150,7 +150,7 @@ fn bump(m: &mut [u8], idx: usize, d: i32) {
 /// Applies one tampering and says what RFC 8945 allows as the outcome.
 fn tamper(u: &mut Unstructured, kind: usize, signed: &[u8], env: &Env) -> Option<(Vec<u8>, Expect)> {
     let (m, mut e) = tamper_inner(u, kind, signed, env)?;
-    if env.timers_only && matches!(e.label, "tsig-error-flip" | "tsig-class-flip" | "tsig-ttl-flip" | "other-data-added" | "tsig-other-data-flip") {
+    if env.timers_only && matches!(e.label, "tsig-error-flip" | "tsig-class-flip" | "tsig-ttl-flip" | "other-data-added" | "other-data-of-other-length-added" | "tsig-other-data-flip") {
         // RFC 8945 §5.3.1: from the second message of a sequence on only the
         // TSIG timers are digested; class, TTL, error and other data of the
         // TSIG RR are not covered by the MAC, so a conformant verifier may
@@ -461,9 +461,17 @@ fn tamper_inner(u: &mut Unstructured, kind: usize, signed: &[u8], env: &Env) -> 
                 }
                 _ => {
                     // non-empty other data on a message without error: not what was signed
+                    // RFC 8945 §4.3.3 digests Other Len and Other Data, whatever their length.
                     let mut rr = sp.rr.clone();
-                    rr.other = vec![0, 0, 0, 0, 0, 1];
-                    Some((rebuild(&signed[..start], &rr), ex(vec![O::BadSig, O::FormErr], "other-data-added", true)))
+                    let l = [6usize, 1, 2, 3, 4, 5, 7, 8, 12, 16][pick(u, 10)];
+                    if l == 6 {
+                        rr.other = vec![0, 0, 0, 0, 0, 1];
+                        Some((rebuild(&signed[..start], &rr), ex(vec![O::BadSig, O::FormErr], "other-data-added", true)))
+                    } else {
+                        let seed = byte(u);
+                        rr.other = (0..l).map(|i| seed.wrapping_mul(31).wrapping_add(i as u8 * 17)).collect();
+                        Some((rebuild(&signed[..start], &rr), ex(vec![O::BadSig, O::FormErr], "other-data-of-other-length-added", true)))
+                    }
                 }
             }
         }
